@@ -122,7 +122,9 @@ FieldProducts ==
   { P(t, FALSE, [id_type |-> it, data |-> d]) : t \in {35, 36}, it \in {1, 2, 3, 5, 9, 11}, d \in {<<>>, <<192, 168, 0, 1>>, <<98, 111, 98>>} } \cup
   { P(39, FALSE, [method |-> m, data |-> d]) : m \in {1, 2, 3}, d \in {<<>>, <<7>>, N32} } \cup
   { P(44, FALSE, [ts |-> << [ts_type |-> 7, proto |-> pr, sport |-> pp[1], eport |-> pp[2], saddr |-> V4a, eaddr |-> ea] >>]) :
-      pr \in {0, 1, 6, 255}, pp \in {<<0, 65535>>, <<500, 500>>, <<65535, 0>>, <<1, 2>>}, ea \in {V4a, V4b} }
+      pr \in {0, 1, 6, 255}, pp \in {<<0, 65535>>, <<500, 500>>, <<65535, 0>>, <<1, 2>>}, ea \in {V4a, V4b} } \cup
+  \* 3.13: each selector has its own Selector Length - the families may be mixed within one payload, in any order (a dual-stack offer)
+  { P(t, FALSE, [ts |-> l]) : t \in {44, 45}, l \in { <<Ts4, Ts6>>, <<Ts6, Ts4>>, <<Ts6, Ts4, Ts4p>>, <<Ts6, Ts4, Ts6>>, <<Ts4p, Ts6, Ts4>> } }
 Payloads == CorePayloads \cup FieldProducts
 
 Headers ==
